@@ -159,7 +159,7 @@ func (l *LSTM) Apply(inputs []tensor.Tensor) ([]tensor.Tensor, error) {
 	// Loop over all timesteps of the input, applying the LSTM calculation to every
 	// timesteps while updating the hidden tensor.
 	for t := 0; t < seqLength; t++ {
-		Xt, err := X.Slice(ops.NewSlicer(t, t+1), nil, nil)
+		Xt, err := ops.ExtractTimestep(X, t)
 		if err != nil {
 			return nil, err
 		}
